@@ -79,6 +79,49 @@ def rename_locals(tree) -> int:
     return count
 
 
+def invert_branches(tree) -> int:
+    """`if c: A else: B` -> `if not c: B else: A` for every two-armed if (elif chains included)."""
+    count = 0
+    for n in ast.walk(tree):
+        if isinstance(n, ast.If) and n.orelse:
+            t = n.test
+            if isinstance(t, ast.UnaryOp) and isinstance(t.op, ast.Not):
+                n.test = t.operand
+            else:
+                n.test = ast.UnaryOp(op=ast.Not(), operand=t)
+            n.body, n.orelse = n.orelse, n.body
+            count += 1
+    ast.fix_missing_locations(tree)
+    return count
+
+
+def insert_noops(tree) -> int:
+    """Insert a `pass` statement in front of every statement of every function body block."""
+    count = 0
+    for fn in ast.walk(tree):
+        if isinstance(fn, FuncNode):
+            for n in ast.walk(fn):
+                for field in ("body", "orelse", "finalbody"):
+                    blk = getattr(n, field, None)
+                    if isinstance(blk, list) and blk and isinstance(blk[0], ast.stmt) and not any(isinstance(x, ast.Pass) for x in blk):
+                        new = []
+                        for i, st in enumerate(blk):
+                            if not (i == 0 and isinstance(st, ast.Expr) and isinstance(st.value, ast.Constant) and isinstance(st.value.value, str)):
+                                new.append(ast.Pass())
+                                count += 1
+                            new.append(st)
+                        blk[:] = new
+    ast.fix_missing_locations(tree)
+    return count
+
+
+def all_three(tree) -> int:
+    return invert_branches(tree) + rename_locals(tree) + insert_noops(tree)
+
+
+TRANSFORMS = {"rename": rename_locals, "invert": invert_branches, "noops": insert_noops, "all": all_three}
+
+
 def refactored_copy(root: str = "/repo", transform=rename_locals) -> tuple[str, int]:
     tmp = tempfile.mkdtemp(prefix="verif_rf_", dir="/var/tmp")
     shutil.copytree(os.path.join(root, "redun"), os.path.join(tmp, "redun"), ignore=shutil.ignore_patterns("tests", "__pycache__", "*.pyc", "*.db"))
